@@ -57,6 +57,10 @@ CHECKS["C16"] = dict(level="fault_enumeration",
    text="The os-level trace (mkstemp, NamedTemporaryFile, native parquet write, write, fsync, close, replace, remove, open, makedirs) of whole Hypothesis-generated histories, from table creation on, is replayed on a model file system with volatile/durable content per inode and volatile/durable entries per directory; at every prefix, and in particular at every pointer rename, every file reachable from the version the pointer names (independent reader) must have durable content and a durable directory entry, and the pointer's own content must be flushed before its rename. Exhaustive over the prefixes of each generated trace.",
    note="A model of POSIX power-loss semantics, not a power cycle. fsync via a fresh read-only descriptor of the same inode counts (Linux). Durability of newly created directories' own entries is a diagnostic only.",
    technique="trace-prefix enumeration over Hypothesis-generated histories against a power-loss model file system", design="3/C16")
+CHECKS["C17"] = dict(level="exploration",
+   text="Path strings from a grammar (exhaustive to depth 3 over 9-15 components x 2 prefixes plus absolute sentinel paths; Hypothesis-sampled at depth 4-5 with doubled slashes) are pushed through 20 entry points (all public LocalStorageBackend methods, lock creation, DataFileManager read/open/write, append_files/delete_files), and tampered manifest entries / manifest references / manifest-list references / marker payloads (10 escaping spellings) are followed by 9 actions (scans, row_count, GC, verify_integrity, append, delete). The table root is reached directly and through a symlink and contains symlinks to the outside. A process-wide audit hook flags any open/list/remove/rename/mkdir/utime/truncate/link on a path outside the canonical root (and paths handed to the native parquet reader/writer); the sentinel tree's fingerprint must not change; an escaping path must raise; no read may return the sentinel's rows.",
+   note="stat-like probes are not flagged. Native pyarrow opens are observed through the arguments the library passes to pyarrow.parquet (no ptrace/strace in the registered commands).",
+   technique="exhaustive small-depth path-grammar enumeration + Hypothesis sampling at larger depth, oracle = audit-hook access monitor + sentinel fingerprint", design="3/C17")
 NOT_YET = {}
 
 def main():
